@@ -42,6 +42,16 @@ CLAIMED['C04'] = dict(
          'representative of its type with symbolic field bytes.',
     design='5/C04')
 
+CLAIMED['C06'] = dict(
+    text='The real chunks/fragment/fragment_file/DIMSEMessage.encode/Association.send are executed symbolically with the '
+         'maximum PDU length M anywhere in [7, 2^32) and command/data lengths as unbounded symbolic integers (length-only '
+         'byte stand-ins), up to K fragments per stream: size bound, flags, order, contiguity, one-last-and-final, '
+         'bytes = file variant, file closed; plus byte-exact content with symbolic data bytes for all 23 message classes. '
+         'A test samples lengths; the solver covers every M and L in the bound, incl. all exact-multiple boundaries.',
+    note=TRUSTED + 'LenSeq/LenFile length-only stand-ins (vt/absbytes.py); number of fragments per stream bounded by K=3 '
+         '(quick) / 6 (thorough); symbolic data contents <= 4 / 6 bytes.',
+    design='5/C06')
+
 NOT_YET = 'check not built yet in this revision (see DESIGN.md section 5 for the plan)'
 
 NOT_APPLICABLE = {}
